@@ -398,7 +398,14 @@ def build(seed: int, family: str | None = None, allow_restart: bool = True) -> S
             attach_veto(sc, d, 0.3)
             if rs.rand() < 0.3:
                 d.default_label = int(rs.choice([0, -1, 5]))
-            mc.add_move(d if rs.rand() < 0.6 else d * 2, criteria=CanonicalCriteria(), name="disp")
+            r_ = rs.rand()
+            if r_ < 0.25:
+                # the SAME displacement move object under two entries (alone and doubled): every accepted exchange is still
+                # announced to it once
+                mc.add_move(d, criteria=CanonicalCriteria(), name="disp")
+                mc.add_move(d * 2, criteria=CanonicalCriteria(), name="disp_twice", probability=0.5)
+            else:
+                mc.add_move(d if r_ < 0.7 else d * 2, criteria=CanonicalCriteria(), name="disp")
         if rs.rand() < 0.3:
             # one trial that displaces a particle AND exchanges one (a plain composite of a displacement and an exchange move)
             d3 = RecDisp(lab.copy(), disp_op(rs, molecular))
